@@ -34,13 +34,13 @@ def exact_cases(ctx, n):
     cases = []
     while len(cases) < n:
         scale = rng.choice([0.001, 0.01, 0.3, 1.0, 2.5, 10.0, 1000.0])
-        layout = rng.choice(["axes", "axes0", "segments"])
+        layout = rng.choice(["axes", "axes0", "segments", "both"])
         ng = rng.randint(1, 4)
         nch = rng.randint(1, 6)
         groups = []
         maxmag = 1.0
         for _ in range(ng):
-            size = nch if layout != "segments" else rng.randint(1, 6)
+            size = nch if layout in ("axes", "axes0") else (rng.randint(1, 6) if layout == "segments" else 2 * rng.randint(1, 3))
             bound = int(1e6 / (scale * math.log(2)))
             M = rng.choice([0, 1, -3, 17, -100, rng.randint(-min(bound, 10**6), min(bound, 10**6))])
             g = pow2_group(rng, size, M)
